@@ -142,22 +142,16 @@ def _approx(a, b) -> bool:
 
 
 def noise_args_value(spec):
-    """Constructor arguments of a noise spec as a record in signature order (defaults filled in)."""
-    import inspect
-
-    import pulser
-
-    sig = inspect.signature(pulser.NoiseModel.__init__)
+    """Constructor arguments of a noise spec as a record in (documented) signature order, documented defaults
+    filled in — not read from the live signature."""
     kvs = []
-    for p in sig.parameters.values():
-        if p.name == "self":
-            continue
-        v = spec["kw"].get(p.name, p.default)
-        if p.name == "eff_noise_opers":
+    for name in g.SPEC_NOISE_PARAMS:
+        v = spec["kw"].get(name, g.SPEC_NOISE_DEFAULTS.get(name))
+        if name == "eff_noise_opers":
             v = [[[g._cplx(e) for e in row] for row in op] for op in v]
-        if p.name == "eff_noise_rates":
+        if name == "eff_noise_rates":
             v = [float(r) for r in v]
-        kvs.append((p.name, tb.to_value(list(v) if isinstance(v, tuple) else v)))
+        kvs.append((name, tb.to_value(list(v) if isinstance(v, tuple) else v)))
     return tb.vobj(kvs)
 
 
@@ -288,10 +282,14 @@ def run_case(model: Model | None, family: str, spec) -> CaseResult:
         return res
     s, dec, fails = g.roundtrip(family, spec, obj)
     res.json, res.dec, res.fails = s, dec, list(fails)
+    res.fails += g.monitor_json_ids(family, spec, s)
     if dec is not None:
         res.fails += g.monitor_roundtrip(family, spec, obj, dec)
+        if "builtin" not in spec:
+            res.fails += g.monitor_spec(family, spec, dec)
     if family == "noise":
         res.fails += g.monitor_noise_types(spec, obj)
+        res.fails += g.monitor_relevance(spec, obj)
     if family == "device":
         res.fails += legacy_device_roundtrip(spec, obj)
     res.divs = correspond(model, family, spec, obj, s, dec, extra)
@@ -400,10 +398,20 @@ def classify_build_failure(out: str) -> tuple[bool, list[str]]:
 
 def lean_obligations():
     thms = common.property_theorems(PROP)
-    bad = common.lean_forbidden_tokens([f"Properties.{PROP}"] if "PROP" in globals() else None)
+    bad = common.lean_forbidden_tokens()
     if bad:
         raise InfraError("forbidden tokens in Lean sources: " + "; ".join(bad[:5]))
-    axioms = common.audit_axioms(f"Properties.{PROP}", thms) if thms else {}
+    try:
+        axioms = common.audit_axioms(f"Properties.{PROP}", thms) if thms else {}
+    except InfraError as e:
+        # the audit runs outside the build lock: a concurrent run that regenerates the tables (seeded-change
+        # tooling) can remove the .olean between our build and our audit -> rebuild once and retry
+        if "does not exist" not in str(e):
+            raise
+        ok, out = common.lake_build(TARGETS)
+        if not ok:
+            raise InfraError("lake build failed on retry:\n" + out[-2000:]) from e
+        axioms = common.audit_axioms(f"Properties.{PROP}", thms)
     discharged, offending = 0, {}
     for t in thms:
         ax = axioms.get(t)
